@@ -2,7 +2,7 @@
 from vf.hx import *  # noqa
 
 
-def ledger(P, q0, q1, q2, t1, t2, d0, d1, d2, m0, m1, m2, sus_t, sus_pool, K=7, oc=False, want=""):
+def ledger(P, q0, q1, q2, t1, t2, d0, d1, d2, m0, m1, m2, sus_t, sus_pool, K=7, oc=False, alloc=10, want=""):
     """Executor with P pools (4 CPU / 40 GB each).  Three 2-operator pipelines are assigned at ticks
     0, t1, t2 with pool numbers q0, q1, q2 (any integer, possibly not a pool); container i gets
     2 CPU / 10 GB, its first operator runs d_i ticks with fixed memory m_i (so m_i > 10 => OOM), its
@@ -27,7 +27,7 @@ def ledger(P, q0, q1, q2, t1, t2, d0, d1, d2, m0, m1, m2, sus_t, sus_pool, K=7, 
         asg = []
         for i, (at, q, ops) in enumerate(pipes):
             if at == t:
-                asg.append(Assignment(ops=ops, cpu=2, ram=10, priority=Priority.BATCH_PIPELINE,
+                asg.append(Assignment(ops=ops, cpu=1 if alloc != 10 else 2, ram=alloc, priority=Priority.BATCH_PIPELINE,
                                       pool_id=q, pipeline_id=f"p{i}"))
         sus = []
         if t == sus_t and first_id is not None:
@@ -115,7 +115,15 @@ def ledger(P, q0, q1, q2, t1, t2, d0, d1, d2, m0, m1, m2, sus_t, sus_pool, K=7, 
                 for c in pool.suspending_containers:
                     if c.container_id == sus_due:
                         return "C09:suspended_container_never_reaches_its_outcome"
-        # a container that disappeared produced an outcome
+        # a container that ended in this tick (an operator of it FAILED: it was killed) is gone from the pool and its
+        # result is among this tick's results - not held back to a later tick
+        for cid, c in live_now.items():
+            if any(o.state() == S.FAILED for o in c.operators):
+                return "C09:killed_container_still_live_result_not_delivered_in_the_tick_it_ended"
+            if c in [x for pool in ex.pools for x in pool.active_containers] and all(o.state() == S.COMPLETED for o in c.operators):
+                return "C09:finished_container_still_live_result_not_delivered_in_the_tick_it_ended"
+        if any(r.failed() for r in res) and oc and alloc != 10:
+            seen.add("pool_kill")
         for cid in live_before:
             if cid not in live_now and cid not in ended:
                 return "C09:container_vanished_without_outcome"
